@@ -223,9 +223,22 @@ func CheckC03(k *sim.Kernel, ar *AdmRun) {
 			k.Violate("C03.notify-mismatch", "pub%d: observed accepted=%v but pub_start notified=%v", i, a.Attempt.Accepted, notified)
 		}
 		if notified {
-			a.Attempt.SessionId = e.SessionId
-			a.Attempt.Accepted = true
-			a.Attempt.Known = true
+			at := a.Attempt
+			at.SessionId = e.SessionId
+			at.Accepted = true
+			at.Known = true
+			// a publisher that went away before it could see lal's answer (reset right after ANNOUNCE / publish) was an
+			// accepted input all the same: its acquire returned by the time of the start notification, its release by
+			// the time of the stop notification
+			if at.RetStep < 0 {
+				at.RetStep = e.Step
+			}
+			if pr := pairs[e.SessionId]; pr != nil && pr.stop >= 0 && at.RelRet < 0 {
+				at.RelRet = evs[pr.stop].Step
+				if at.RelCall < 0 || at.RelCall > at.RelRet {
+					at.RelCall = at.RetStep
+				}
+			}
 		}
 	}
 	// ---- single input slot, replayed in the order lal serialised the events
